@@ -1,7 +1,7 @@
 (** C07 — Value encodings round-trip bit-exactly: correspondence cases and judge.
     The codec models live in Model/C07_s8b.v (simple8b), … ; this file only defines
     the [case] type (inputs + what the real implementation produced) and [check]. *)
-From Verif Require Import Base.Prelude Model.C07_s8b Model.C07_int.
+From Verif Require Import Base.Prelude Model.C07_s8b Model.C07_int Model.C07_float Model.C07_str.
 Local Open Scope N_scope.
 
 Definition lN_eqb := list_eqb N.eqb.
@@ -23,7 +23,24 @@ Inductive case :=
 (** timestamps: TimeEncoder / TimeArrayEncodeAll, TimeDecoder / TimeArrayDecodeAll *)
 | CTime (vals : list N) (sb bb : option (list N)) (d_ss d_bs d_sb d_bb : option (list N))
 (** booleans *)
-| CBool (vals : list bool) (sb bb : option (list N)) (d_ss d_bs d_sb d_bb : option (list bool)).
+| CBool (vals : list bool) (sb bb : option (list N)) (d_ss d_bs d_sb d_bb : option (list bool))
+(** floats as IEEE-754 bit patterns: FloatEncoder / FloatArrayEncodeAll, FloatDecoder /
+    FloatArrayDecodeAll *)
+| CFloat (vals : list N) (sb bb : option (list N)) (d_ss d_bs d_sb d_bb : option (list N))
+(** strings (byte lists).  [sp]/[bp]: header byte followed by the snappy-DECOMPRESSED payload
+    of StringEncoder.Bytes() / StringArrayEncodeAll (the driver runs the real snappy.Decode);
+    [d_xy]: strings returned by StringDecoder / StringArrayDecodeAll on the real bytes. *)
+| CStr (vals : list (list N)) (sp bp : option (list N))
+       (d_ss d_bs d_sb d_bb : option (list (list N)))
+(** blocks.  [typ]: block type byte; [ts]: timestamps; [vals]: values (float bits / int64 /
+    uint64 patterns / 0,1 for booleans); [s_tb s_vb b_tb b_vb]: outputs of the scalar and
+    batch timestamp and value encoders run standalone; [sblk]/[bblk]: Values.Encode and
+    Encode*ArrayBlock; [d_xy]: (timestamps, values) from DecodeBlock (s) / Decode*ArrayBlock
+    (b) on the scalar (s) / batch (b) block. *)
+| CBlock (typ : N) (ts vals : list N) (s_tb s_vb b_tb b_vb : list N) (sblk bblk : option (list N))
+         (d_ss d_bs d_sb d_bb : option (list N * list N))
+| CBlockS (ts : list N) (vals : list (list N)) (s_tb s_vb b_tb b_vb : list N)
+          (sblk bblk : option (list N)) (d_ss d_bs d_sb d_bb : option (list N * list (list N))).
 
 Definition words_or_nil (o : option (list N)) : list N :=
   match o with Some ws => ws | None => [] end.
@@ -81,8 +98,53 @@ Definition check_codec {A} (eqb : A -> A -> bool)
     end in
   judge same ok.
 
+(** floats: a list containing a NaN must be rejected by both encoders, any other list
+    must round-trip through all four encoder/decoder combinations *)
+Definition check_float (vals : list N) (sb bb : option (list N))
+           (d_ss d_bs d_sb d_bb : option (list N)) : verdict :=
+  if existsb is_nan vals then
+    let same := olN_eqb sb (float_encode_scalar vals) && olN_eqb bb (float_encode_batch vals) in
+    let ok := match sb, bb with None, None => true | _, _ => false end in
+    judge same ok
+  else
+    check_codec N.eqb float_encode_scalar float_encode_batch float_decode_scalar float_decode_batch
+                vals sb bb d_ss d_bs d_sb d_bb.
+
+(** blocks: the real block must be the framing of the standalone encoders' outputs, the
+    model's [unpack_block] must split it back, and every decoder must return the input *)
+Definition check_block {A} (eqb : A -> A -> bool) (typ : N) (ts : list N) (vals : list A)
+           (s_tb s_vb b_tb b_vb : list N) (sblk bblk : option (list N))
+           (d_ss d_bs d_sb d_bb : option (list N * list A)) : verdict :=
+  let deq := option_eqb (pair_eqb lN_eqb (list_eqb eqb)) in
+  let m_s := pack_block typ s_tb s_vb in
+  let m_b := pack_block typ b_tb b_vb in
+  let split_ok (blk tb vb : list N) :=
+    match unpack_block blk with
+    | Some (t, tb', vb') => (t =? typ) && lN_eqb tb' tb && lN_eqb vb' vb
+    | None => false
+    end in
+  let same := olN_eqb sblk (Some m_s) && olN_eqb bblk (Some m_b)
+              && split_ok m_s s_tb s_vb && split_ok m_b b_tb b_vb in
+  let want := Some (ts, vals) in
+  let ok := match sblk, bblk with
+            | Some _, Some _ => deq d_ss want && deq d_bs want && deq d_sb want && deq d_bb want
+            | _, _ => false
+            end in
+  judge same ok.
+
+Definition str_id_encode (l : list (list N)) : option (list N) := Some (str_encode (fun b => b) l).
+Definition str_id_decode (b : list N) : option (list (list N)) := str_decode (fun b => Some b) b.
+
 Definition check (c : case) : verdict :=
   match c with
+  | CStr vals sp bp d_ss d_bs d_sb d_bb =>
+      check_codec lN_eqb str_id_encode str_id_encode str_id_decode str_id_decode
+                  vals sp bp d_ss d_bs d_sb d_bb
+  | CBlock typ ts vals s_tb s_vb b_tb b_vb sblk bblk d_ss d_bs d_sb d_bb =>
+      check_block N.eqb typ ts vals s_tb s_vb b_tb b_vb sblk bblk d_ss d_bs d_sb d_bb
+  | CBlockS ts vals s_tb s_vb b_tb b_vb sblk bblk d_ss d_bs d_sb d_bb =>
+      check_block lN_eqb BlockString ts vals s_tb s_vb b_tb b_vb sblk bblk d_ss d_bs d_sb d_bb
+  | CFloat vals sb bb d_ss d_bs d_sb d_bb => check_float vals sb bb d_ss d_bs d_sb d_bb
   | CInt vals sb bb d_ss d_bs d_sb d_bb =>
       check_codec N.eqb int_encode_scalar int_encode_batch int_decode_scalar int_decode_batch
                   vals sb bb d_ss d_bs d_sb d_bb
@@ -90,7 +152,7 @@ Definition check (c : case) : verdict :=
       check_codec N.eqb time_encode_scalar time_encode_batch time_decode_scalar time_decode_batch
                   vals sb bb d_ss d_bs d_sb d_bb
   | CBool vals sb bb d_ss d_bs d_sb d_bb =>
-      check_codec Bool.eqb (fun l => Some (bool_encode l)) (fun l => Some (bool_encode l))
+      check_codec Bool.eqb (fun l => Some (bool_encode_scalar l)) (fun l => Some (bool_encode l))
                   bool_decode bool_decode vals sb bb d_ss d_bs d_sb d_bb
   | CS8b vals e_all e_jw e_stream e_one d_all d_bytes d_jw d_stream cnt =>
       check_s8b vals e_all e_jw e_stream e_one d_all d_bytes d_jw d_stream cnt
